@@ -897,16 +897,24 @@ pub fn regen_main(p: &dyn Property, tier: Tier, seed: u64, index: u64, cases: u6
 /// Replays one case; a case of the form `{"history": [c1, .., cn]}` is a sequence of cases replayed
 /// in order on one thread (for failures that depend on earlier calls).
 pub fn replay_case(p: &dyn Property, case: &Value, st: &mut Stats) -> Result<CheckResult, String> {
+    // a panic that escapes a check (every call the checks expect to panic is caught where it is made) is a
+    // failure of the case, not of the run
+    let mut one = |c: &Value, st: &mut Stats| -> Result<CheckResult, String> {
+        match crate::observe::guarded(|| p.replay(c, st)) {
+            Ok(r) => r,
+            Err(msg) => Ok(Err(Failure { signature: "panic/outside-the-guarded-calls".into(), message: format!("the check of this case panicked: {msg}") })),
+        }
+    };
     if let Some(h) = case.get("history").and_then(|h| h.as_array()) {
         for c in h {
-            match p.replay(c, st)? {
+            match one(c, st)? {
                 Ok(()) => {}
                 Err(f) => return Ok(Err(f)),
             }
         }
         return Ok(Ok(()));
     }
-    p.replay(case, st)
+    one(case, st)
 }
 
 fn run_workers_in_threads(p: &dyn Property, tier: Tier, seed: u64, threads: u64, per: u64) -> Vec<(Stats, Option<(Value, Failure)>)> {
